@@ -10,4 +10,8 @@ timeout 3000 make -j16 > ../.build/coq_build.log 2>&1 || { tail -30 ../.build/co
 cd ../harness
 [ -f Cargo.lock ] || cp /repo/Cargo.lock .
 timeout 3000 cargo build --offline --bins > ../.build/cargo_build.log 2>&1 || { tail -30 ../.build/cargo_build.log; exit 1; }
+cd ..
+if [ -d harness_db ]; then
+  (cd harness_db && { [ -f Cargo.lock ] || cp /repo/Cargo.lock .; } && timeout 3000 cargo build --offline --bins > ../.build/cargo_db_build.log 2>&1) || { tail -30 .build/cargo_db_build.log; exit 1; }
+fi
 echo setup-ok
